@@ -141,6 +141,28 @@ func (s *SFTPStoreBase) nameFromID(id ChunkID) string {
 	return name
 }
 
+// isTempChunkPath returns true if p is where StoreObject keeps the data of a chunk of this
+// store while it is being uploaded: the place and name of the chunk followed by a number.
+func (s *SFTPStoreBase) isTempChunkPath(p string) bool {
+	ext := CompressedChunkExt
+	if s.opt.Uncompressed {
+		ext = UncompressedChunkExt
+	}
+	base := filepath.Base(p)
+	if len(base) <= 64+len(ext) || !strings.HasPrefix(base[64:], ext) {
+		return false
+	}
+	for _, r := range base[64+len(ext):] {
+		if r < '0' || r > '9' {
+			return false
+		}
+	}
+	if _, err := ChunkIDFromString(base[:64]); err != nil {
+		return false
+	}
+	return isChunkPath(s.path, p, base[:64])
+}
+
 // NewSFTPStore initializes a chunk store using SFTP over SSH.
 func NewSFTPStore(location *url.URL, opt StoreOptions) (*SFTPStore, error) {
 	s := &SFTPStore{make(chan *SFTPStoreBase, opt.N), location, opt.N, opt.converters()}
@@ -241,6 +263,11 @@ func (s *SFTPStore) Prune(ctx context.Context, ids map[ChunkID]struct{}) error {
 			continue
 		}
 		path := walker.Path()
+		// If the chunk is only partially uploaded remove it
+		if c.isTempChunkPath(path) {
+			_ = c.client.Remove(path)
+			continue
+		}
 		// Skip compressed chunks if this is running in uncompressed mode and vice-versa
 		var sID string
 		if c.opt.Uncompressed {
